@@ -10,7 +10,7 @@
 //     not with goflow's Equals); the contact-field parser (flows.FieldValues.Parse) reads the same
 //     number from the same text.
 //   - datetime: ToXDateTime(env, text) is the same instant as the original *truncated to what the text
-//     shows*: microseconds for the ISO form (Render), minutes or seconds for the environment format
+//     shows*: as many fraction digits as the ISO text (Render) carries - six today -, minutes or seconds for the environment format
 //     (Format(env)), the truncation being done on the wall clock of the zone the text was written in.
 //     Instants whose year is outside 1..9999 in the value zone or the environment zone are outside the
 //     statement's quantifier and are skipped (counted).
@@ -261,6 +261,7 @@ func guards(r *mc.Result, tier string) []string {
 		need("gap-last-instant-before:" + z)
 		need("gap-first-instant-after:" + z)
 	}
+	need("day-without-midnight:America/Sao_Paulo")
 	for _, x := range []string{"rendered-12am", "rendered-12pm", "rendered-noon-24h", "rendered-midnight-24h", "year-below-1000", "year-9999",
 		"value-zone-offset-with-seconds", "sub-microsecond-nanos", "day-could-be-month", "day-cannot-be-month", "feb-29",
 		"number:integer", "number:fraction", "number:negative", "number:zero-with-scale", "number:leading-zero-fraction", "number:integer-trailing-zeros",
@@ -309,6 +310,6 @@ func init() {
 		Run:    run,
 		Replay: replayFn,
 		Guards: guards,
-		Budget: map[string]time.Duration{"quick": 4 * time.Minute, "thorough": 25 * time.Minute},
+		Budget: map[string]time.Duration{"quick": 4 * time.Minute, "thorough": 60 * time.Minute},
 	})
 }
